@@ -10,7 +10,7 @@ From Coq Require Import ZArith QArith List Bool Reals.
 From Coq Require Import Floats.SpecFloat.
 From Flocq Require Import Core.Core.
 From ML Require Import base.RustSem model.Fmt model.FloatOps model.Number model.Parse model.Top spec.Decimal spec.Round spec.RoundFacts
-  gen.Consts gen.Tables gen.BTables gen.PowDump proofs.ParseFacts proofs.Glue proofs.NoUB.
+  gen.Consts gen.Tables gen.BTables gen.PowDump proofs.ParseFacts proofs.Glue proofs.NoUB proofs.FastPathFacts proofs.EndToEnd.
 Import ListNotations.
 
 Open Scope Z_scope.
@@ -40,8 +40,17 @@ Theorem C03_RN_Qeq :
   forall f : format, sfmt_ok f = true -> forall v v' : Q, (0 <= v)%Q -> v == v' -> RN f v = RN f v'.
 Proof. exact RN_Qeq. Qed.
 
+Theorem C03_fast_class_roundtrip_exact :
+  forall (c : config) (f : format) (b : build) (BT : btables) (L : limits) (i fr : list Z) (e x : Z),
+         In c ALL_CONFIGS ->
+         f = F32 \/ f = F64 ->
+         fast_class f i fr e ->
+         0 <= x < inf_bits f -> dec_value i fr e == value_Q f x -> parse_float c TABLES BT L f b i fr e = Ok x.
+Proof. exact fast_class_roundtrip_exact. Qed.
+
 
 Print Assumptions C03_RN_fixpoint.
 Print Assumptions C03_decode_valid.
 Print Assumptions C03_sf_of_bits_of_sf.
 Print Assumptions C03_RN_Qeq.
+Print Assumptions C03_fast_class_roundtrip_exact.
